@@ -239,6 +239,20 @@ func propStructureAsWritten(args []string) string {
 	if q, err := ps.ParseQuery(); err != nil || len(q.Statements) != 0 {
 		return ""
 	}
+	// every call of the package-level entry point returns a tree of its own: the first result is edited all
+	// over (names, literal values, counts, flags, parentheses removed), then the same text is parsed again and
+	// must give what it gave the first time (round-4 seeded changes C01-2 / C03-2 kept parsed trees in a table
+	// keyed by the text and handed the same tree out again)
+	if first, err := influxql.ParseStatement(text); err == nil {
+		want := sexpStatement(first)
+		scribble(first)
+		if again, err2 := influxql.ParseStatement(text); err2 != nil || sexpStatement(again) != want {
+			return fmt.Sprintf("%q parsed a second time after the first result was edited gives another tree (%v)", text, err2)
+		}
+		if q, err3 := influxql.ParseQuery(text); err3 == nil && len(q.Statements) == 1 && sexpStatement(q.Statements[0]) != want {
+			return fmt.Sprintf("%q: ParseQuery after an earlier result was edited gives another tree", text)
+		}
+	}
 	// IsRawQuery at every level (reflective traversal: Walk does not enter every statement type)
 	var bad string
 	parens := 0
@@ -311,6 +325,57 @@ func propStructureAsWritten(args []string) string {
 		return fmt.Sprintf("%q has %d grouping parentheses, the tree has %d ParenExpr nodes: %s", text, grouping, parens, stmt.String())
 	}
 	return ""
+}
+
+var lookAlike = strings.NewReplacer("\u212a", "k", "\u0130", "i", "\u017f", "s", "k", "\u212a", "K", "\u212a", "i", "\u0130", "I", "\u0130")
+
+// scribble edits a tree in place wherever that is possible through exported fields: every identifier and
+// string gets a suffix, numbers are changed, booleans flipped, parentheses and call arguments dropped.
+func scribble(root interface{}) {
+	reflectNodes(reflect.ValueOf(root), func(n interface{}) {
+		switch x := n.(type) {
+		case *influxql.VarRef:
+			x.Val += "_scribbled"
+		case *influxql.StringLiteral:
+			x.Val += "_scribbled"
+		case *influxql.IntegerLiteral:
+			x.Val += 17
+		case *influxql.NumberLiteral:
+			x.Val += 17
+		case *influxql.DurationLiteral:
+			x.Val += 17
+		case *influxql.BooleanLiteral:
+			x.Val = !x.Val
+		case *influxql.Measurement:
+			x.Name += "_scribbled"
+			x.Database += "_scribbled"
+		case *influxql.Call:
+			x.Name += "_scribbled"
+			if len(x.Args) > 0 {
+				x.Args = x.Args[:len(x.Args)-1]
+			}
+		case *influxql.ParenExpr:
+			if inner, ok := x.Expr.(*influxql.ParenExpr); ok {
+				x.Expr = inner.Expr
+			}
+		case *influxql.BinaryExpr:
+			if p, ok := x.LHS.(*influxql.ParenExpr); ok {
+				x.LHS = p.Expr
+			}
+			if p, ok := x.RHS.(*influxql.ParenExpr); ok {
+				x.RHS = p.Expr
+			}
+		case *influxql.SelectStatement:
+			x.Limit += 99
+			x.Offset += 99
+			x.IsRawQuery = !x.IsRawQuery
+			if len(x.Fields) > 1 {
+				x.Fields = x.Fields[1:]
+			}
+		case *influxql.Field:
+			x.Alias += "_scribbled"
+		}
+	})
 }
 
 // reflectNodes calls visit on every non-nil pointer reachable from v through exported fields, slices and
@@ -410,6 +475,31 @@ func propPrintStmt(args []string) string {
 	if err != nil {
 		return "skip"
 	}
+	// the quoting helpers are asked about look-alikes of every name first (ASCII case variants, and the ASCII
+	// letters that U+212A KELVIN SIGN and U+0130 lower-case to): what they answer for a name does not depend
+	// on what they were asked before (round-4 seeded changes C02-1 / C06-1 memoised IdentNeedsQuotes under
+	// the lower-cased name)
+	reflectNodes(reflect.ValueOf(stmt), func(n interface{}) {
+		prime := func(name string) {
+			if name == "" {
+				return
+			}
+			for _, v := range []string{strings.ToLower(name), strings.ToUpper(name), lookAlike.Replace(name)} {
+				_ = influxql.IdentNeedsQuotes(v)
+				_ = influxql.QuoteIdent(v)
+			}
+		}
+		switch x := n.(type) {
+		case *influxql.VarRef:
+			prime(x.Val)
+		case *influxql.Measurement:
+			prime(x.Name)
+			prime(x.Database)
+			prime(x.RetentionPolicy)
+		case *influxql.Field:
+			prime(x.Alias)
+		}
+	})
 	printed := unredact(stmt, stmt.String())
 	stmt2, err2 := newStmtParser(printed, nil).ParseStatement()
 	if err2 != nil {
